@@ -44,13 +44,22 @@ def _classify(ctx, dist, distinct, samples, mode, env, runs, lockstep):
         nsleep = sum(1 for l in lines if " fwait " in l and l.endswith("sleep"))
         nwake = sum(1 for l in lines if " fwake " in l and not l.endswith(" 0"))
         ncasfail = sum(1 for l in lines if " casw " in l and l.split()[-2] == "0")
-        straddle = any(" ev fill " in l and int(l.split()[3]) < 128 <= int(l.split()[3]) + int(l.split()[4]) + 4 and int(l.split()[4]) < 100 for l in lines)
-        closed_wake = any(" st w" in l and l.endswith(" 2") for l in lines) and nsleep > 0
+        # a publish_n batch split at the 128-slot block boundary: the same thread's callback ends at 128 and resumes at 128
+        ends = set(l.split()[0] for l in lines if " ev fill " in l and int(l.split()[3]) < 128 and int(l.split()[3]) + int(l.split()[4]) == 128 and int(l.split()[4]) <= 5)
+        straddle = any(" ev fill 128 " in l and l.split()[0] in ends for l in lines)
+        dist["sleeps_beyond_block0"] += sum(1 for l in lines if " fwait w" in l and l.endswith("sleep") and int(l.split()[2][1:]) >= 128)
+        closed = set()
+        for l in lines:
+            w = l.split()
+            if len(w) == 5 and w[1] == "st" and w[2].startswith("w") and w[4] == "2":
+                closed.add(w[2])
+            if len(w) == 5 and w[1] == "fwake" and w[2] in closed and w[4] != "0":
+                dist["close_wakes_sleeper"] += 1
         dist["sleeps"] += nsleep
         dist["wakes_with_sleepers"] += nwake
         dist["cas_fail_lines"] += ncasfail
         dist["eagain"] += sum(1 for l in lines if " eagain " in l)
-        dist["near_block_boundary"] += 1 if straddle else 0
+        dist["batch_split_at_block_boundary"] += 1 if straddle else 0
         dist["clears"] += sum(1 for l in lines if l.endswith("ev call clear"))
         for l in lines:
             if " ev stats " in l and " stale " in l:
@@ -100,7 +109,8 @@ def run(ctx):
         n *= 4
     seed0 = ctx.seed * 1000003
     dist = {"modes": {}, "verdicts": {}, "replay_ok": 0, "replay_diverge": 0, "oracle": 0, "cas_fail_lines": 0, "max_trace": 0,
-            "sleeps": 0, "wakes_with_sleepers": 0, "eagain": 0, "near_block_boundary": 0, "clears": 0, "corpus": 0, "stale_reads_view_mode": 0}
+            "sleeps": 0, "wakes_with_sleepers": 0, "eagain": 0, "batch_split_at_block_boundary": 0, "clears": 0, "corpus": 0, "stale_reads_view_mode": 0,
+            "sleeps_beyond_block0": 0, "close_wakes_sleeper": 0}
     distinct = set()
     samples = []
     for mode, seed, env in _corpus():
@@ -133,7 +143,7 @@ def run(ctx):
     ctx.cov["distribution"] = dist
     ctx.cov["distinct_nontrivial"] = len(distinct)
     ctx.cov["traces_validated_against_impl"] = dist["replay_ok"]
-    ctx.cov["rule"] = ("one case = one seeded program (1-3 publish/close/clear cycles; per cycle an optional sequential prefix of 118-127 or 1-5 items so that "
+    ctx.cov["rule"] = ("one case = one seeded program (1-3 publish/close/clear cycles; per cycle an optional sequential prefix of 120-127 or 1-5 items so that "
                        "concurrent ranges straddle the 128-slot block boundary, 1-3 publishers x 1-3 calls of publish / publish_n(0..5), 1-3 consumers using "
                        "consume() / consume(1..5) with optional re-subscribe, close by main or by the last publisher, optional late subscriber, clear) under one "
                        "seeded schedule (random with 5 stickiness levels, or PCT) with spurious weak-CAS failures (1/8 or 1/2); non-trivial = some consumer "
